@@ -576,7 +576,15 @@ def gen_grid(rng, dateline):
                         rng.choice(['uniform', 'random']))
     if rng.random() < 0.5:
         t0 = rng.choice([0.0, 1.7e9])
-        gtime = gen_axis(rng, t0, t0 + rng.choice([3600.0, 86400.0]), rng.randint(1, 60), 'uniform')
+        span = rng.choice([3600.0, 86400.0, 31536000.0])
+        style = rng.choice(['uniform', 'random', 'months'])
+        if style == 'months' and span > 1e7:      # calendar-month bins in seconds: unevenly spaced by nature
+            days, g_ = [31, 28, 31, 30, 31, 30, 31, 31, 30, 31, 30, 31], [t0]
+            for d_ in days:
+                g_.append(g_[-1] + 86400.0 * d_)
+            gtime = g_
+        else:
+            gtime = gen_axis(rng, t0, t0 + span, rng.randint(1, 60), 'random' if style == 'months' else style)
     return glat, glon, galt, gtime
 
 
@@ -750,6 +758,11 @@ def case_features(case):
             f.add('on-lowest-line')
     if len(glat) == 2 or len(glon) == 2:
         f.add('single-cell-axis')
+    for nm, ax in (('lat', glat), ('lon', glon), ('alt', case['galt']), ('time', case['gtime'])):
+        if ax and len(ax) > 2:
+            steps = [b_ - a_ for a_, b_ in zip(ax[:-1], ax[1:])]
+            if max(steps) > 1.001 * min(steps):
+                f.add(f'uneven-{nm}-axis')
     if any(abs(x) == PI / 2 for x in case['lats']):
         f.add('point-on-pole')
     if case['alts'] and case['galt'] and any(x == case['galt'][0] for x in case['alts'][:-1]):
